@@ -233,6 +233,21 @@ def geometricMean(phi: CellVariable):
     
     
 
+def _harmonic(phi_m, phi_p, d_m, d_p):
+    """Width-weighted harmonic mean of two adjacent cell values (arrays).
+
+    Returns 0 where either value is zero, like the 1D implementation (the
+    plain formula gives 0/0 = NaN when both adjacent values are zero).
+    """
+    phi_m = np.asarray(phi_m)
+    phi_p = np.asarray(phi_p)
+    zero = (phi_m == 0.0) | (phi_p == 0.0)
+    denom = d_p*phi_m + d_m*phi_p
+    return np.where(zero, 0.0,
+                    phi_p*phi_m*(d_p+d_m)/np.where(zero, 1.0, denom))
+
+
+
 def harmonicMean(phi: CellVariable):
     """
     Interpolate a mesh-variable defined on mesh-nodes to mesh-faces by harmonic averaging adjacent node values.   
@@ -290,15 +305,15 @@ def harmonicMean(phi: CellVariable):
     elif issubclass(type(phi.domain), Grid2D):
         dx, dy = cell_size_array(phi.domain)
         return FaceVariable(phi.domain,
-            phi._value[1:,1:-1]*phi._value[0:-1,1:-1]*(dx[1:]+dx[0:-1])/(dx[1:]*phi._value[0:-1,1:-1]+dx[0:-1]*phi._value[1:,1:-1]),
-            phi._value[1:-1,1:]*phi._value[1:-1,0:-1]*(dy[:,1:]+dy[:,0:-1])/(dy[:,1:]*phi._value[1:-1,0:-1]+dy[:,0:-1]*phi._value[1:-1,1:]),
+            _harmonic(phi._value[0:-1,1:-1], phi._value[1:,1:-1], dx[0:-1], dx[1:]),
+            _harmonic(phi._value[1:-1,0:-1], phi._value[1:-1,1:], dy[:,0:-1], dy[:,1:]),
             np.array([]))
     elif issubclass(type(phi.domain), Grid3D):
         dx, dy, dz = cell_size_array(phi.domain)
         return FaceVariable(phi.domain,
-            phi._value[1:,1:-1,1:-1]*phi._value[0:-1,1:-1,1:-1]*(dx[1:]+dx[0:-1])/(dx[1:]*phi._value[0:-1,1:-1,1:-1]+dx[0:-1]*phi._value[1:,1:-1,1:-1]),
-            phi._value[1:-1,1:,1:-1]*phi._value[1:-1,0:-1,1:-1]*(dy[:,0:-1]+dy[:,1:])/(dy[:,1:]*phi._value[1:-1,0:-1,1:-1]+dy[:,0:-1]*phi._value[1:-1,1:,1:-1]),
-            phi._value[1:-1,1:-1,1:]*phi._value[1:-1,1:-1,0:-1]*(dz[:,:,0:-1]+dz[:,:,1:])/(dz[:,:,1:]*phi._value[1:-1,1:-1,0:-1]+dz[:,:,0:-1]*phi._value[1:-1,1:-1,1:]))
+            _harmonic(phi._value[0:-1,1:-1,1:-1], phi._value[1:,1:-1,1:-1], dx[0:-1], dx[1:]),
+            _harmonic(phi._value[1:-1,0:-1,1:-1], phi._value[1:-1,1:,1:-1], dy[:,0:-1], dy[:,1:]),
+            _harmonic(phi._value[1:-1,1:-1,0:-1], phi._value[1:-1,1:-1,1:], dz[:,:,0:-1], dz[:,:,1:]))
     
     
 def upwindMean(phi: CellVariable, u: FaceVariable):
